@@ -8,5 +8,5 @@ cp /repo/module/go.sum harness/go.sum
 (cd harness && go build -tags verif -o ../build/verifharness .)
 if [ -d harness-conn ]; then
   sort -u /repo/module/go.sum /repo/minter-connector/go.sum > harness-conn/go.sum
-  (cd harness-conn && go build -tags verif -o ../build/connharness .)
+  (cd harness-conn && go build -tags verif -o ../build/connharness . && go build -tags verif -o ../build/connector-verif github.com/MinterTeam/mhub2/minter-connector/cmd/mhub-minter-connector)
 fi
